@@ -178,6 +178,26 @@ class Kernel:
         """run one thunk on the calling thread as task *task_id* (no scheduling)"""
         self.tasks = None
         self.cur_task = task_id
+        if self.line_crash:
+            # an exception raised from a trace function at a line inside an ``except`` body can leave
+            # the interpreter's "currently handled exception" un-popped for the rest of the thread
+            # (it would then show up as __context__ of every later error): crash runs get a thread of
+            # their own, whose exception state dies with it
+            box = []
+
+            def body():
+                try:
+                    box.append(self._call(thunk))
+                except SimBudgetExceeded as e:
+                    box.append(e)
+            th = threading.Thread(target=body, name='sim-crash-run')
+            th.start()
+            th.join(120)
+            if not box:
+                raise SimHarnessError('crash run did not finish')
+            if isinstance(box[0], SimBudgetExceeded):
+                raise box[0]
+            return box[0]
         return self._call(thunk)
 
     def run_tasks(self, thunks, first=None):
